@@ -278,6 +278,22 @@ def w_cats(_):
 NUCP_BY_TC = {5: 9, 6: 8, 7: 7, 8: 6, 9: 9, 10: 8, 11: 7, 12: 6, 13: 5, 14: 4, 15: 3, 16: 2, 17: 1, 18: 0, 20: 9, 21: 8, 22: 0}
 
 
+# NIC numbers for the (type code, supplement) combinations the standards define (DO-260B Table 2-70/N-4, DO-260A)
+NIC_V2 = {}
+for _tc, _n in {5: 11, 6: 10, 9: 11, 10: 10, 12: 7, 14: 5, 15: 4, 17: 1, 18: 0, 20: 11, 21: 10, 22: 0}.items():
+    NIC_V2[(_tc, 0, 0)] = _n
+NIC_V2.update({(7, 1, 0): 9, (7, 0, 0): 8, (8, 1, 1): 7, (8, 1, 0): 6, (8, 0, 1): 6, (8, 0, 0): 0,
+               (11, 1, 1): 9, (11, 0, 0): 8, (13, 0, 0): 6, (13, 0, 1): 6, (13, 1, 1): 6, (16, 1, 1): 3, (16, 0, 0): 2})
+for _tc in (20, 21, 22):          # supplements do not apply to GNSS-height type codes
+    for _a in (0, 1):
+        for _b in (0, 1):
+            NIC_V2[(_tc, _a, _b)] = NIC_V2[(_tc, 0, 0)]
+NIC_V1 = {}
+for _tc, _n in {5: 11, 6: 10, 8: 0, 9: 11, 10: 10, 12: 7, 13: 6, 14: 5, 15: 4, 17: 1, 18: 0, 20: 11, 21: 10, 22: 0}.items():
+    NIC_V1[(_tc, 0)] = _n
+NIC_V1.update({(11, 1): 9, (11, 0): 8, (16, 1): 3, (16, 0): 2})
+
+
 def judge_lookup(tc, bg):
     """nuc_p, nic_v1, nic_v2 over all supplements for one TC; returns list of signatures."""
     out = []
@@ -291,11 +307,15 @@ def judge_lookup(tc, bg):
         r = call(pms.adsb.nic_v1, msg, nics)
         if r[0] != "ok":
             out.append("nic_v1:raises:%s" % r[1])
+        elif (tc, nics) in NIC_V1 and r[1][0] != NIC_V1[(tc, nics)]:
+            out.append("nic_v1:wrong_NIC_for_type_code_and_supplement")
     for a in (0, 1):
         for b in (0, 1):
             r = call(pms.adsb.nic_v2, msg, a, b)
             if r[0] != "ok":
                 out.append("nic_v2:raises:%s" % r[1])
+            elif (tc, a, b) in NIC_V2 and (r[1][0] != NIC_V2[(tc, a, b)] or (r[1][1] is None) != (NIC_V2[(tc, a, b)] == 0)):
+                out.append("nic_v2:wrong_NIC_for_type_code_and_supplements")
     return out
 
 
